@@ -3,8 +3,8 @@
    (Gen_C12_Tableau.v from Phreeqc::rk_kinetics, Gen_C12_Step.v from cxxKinetics::Current_step). *)
 From Coq Require Import Reals QArith Qabs ZArith List.
 From IPV Require Import C12.MiniPrelude C12.RK C12.Step C12.Checker C12.Closed.
-From IPV Require Import Gen.Gen_C12_Tableau Gen.Gen_C12_Step Gen.Gen_C12_Restart.
-From IPV Require Import C12.Inst C12.RKProofs C12.StepProofs C12.Controller C12.Transfer C12.Restart.
+From IPV Require Import Gen.Gen_C12_Tableau Gen.Gen_C12_Step Gen.Gen_C12_Restart Gen.Gen_C12_Transport.
+From IPV Require Import C12.Inst C12.RKProofs C12.StepProofs C12.Controller C12.Transfer C12.Restart C12.TransportTime.
 Import ListNotations.
 Open Scope Q_scope.
 
@@ -170,6 +170,35 @@ Theorem cvode_continuation_restart_state :
   (forall k, g_cv_first_t0 k == g_cv_first_tstart k) /\ (forall a b c, g_cv_loop_t0 a b c == g_cv_loop_tstart a b c).
 Proof. exact restart_shape. Qed.
 Print Assumptions cvode_continuation_restart_state.
+
+(* ---- kinetic time handed to the cells by one transport step (Phreeqc::transport) -------------------------- *)
+
+(* advection, forward or backward, any number nmix of dispersive mixing runs, any boundary conditions, any column length:
+   every cell c of the column - the inflow cell with its two half steps included - receives exactly timest per shift *)
+Theorem transport_advective_step_integrates_timest : forall ishift nmix cells bcf bcl timest c,
+  ishift <> 0%Z -> (0 <= nmix)%Z -> (1 <= c <= cells)%Z ->
+  exists t, cell_time ishift nmix cells bcf bcl true timest c = Some t /\ t == timest.
+Proof. exact advective_step_integrates_timest. Qed.
+Print Assumptions transport_advective_step_integrates_timest.
+
+(* diffusion only: the nmix >= 1 mixing runs of one diffusion period add up to timest *)
+Theorem transport_diffusive_step_integrates_timest : forall nmix cells bcf bcl has_kin timest c,
+  (1 <= nmix)%Z ->
+  exists t, cell_time 0 nmix cells bcf bcl has_kin timest c = Some t /\ t == timest.
+Proof. exact diffusive_step_integrates_timest. Qed.
+Print Assumptions transport_diffusive_step_integrates_timest.
+
+(* the two mixing loops together make exactly nmix runs, whatever the boundary conditions (the counter is never used uninitialised) *)
+Theorem transport_mixing_runs_total : forall ishift bcf bcl nmix, (0 <= nmix)%Z -> mixruns (g_tr_b_c ishift bcf bcl) nmix = Some nmix.
+Proof. exact mixruns_total. Qed.
+Print Assumptions transport_mixing_runs_total.
+
+(* the loop over cells after the shift: cell c gets half a step iff it is the inflow cell of a column with more than one cell,
+   a whole step otherwise (induction over the cells, the loop-carried kin_time is restored after the inflow cell) *)
+Theorem transport_cell_loop_times : forall fc n kt save c, kt == save -> (1 <= c <= n)%Z ->
+  adv_time fc n kt save c == if Z.eqb c fc && Z.ltb 1 n then save / 2 else save.
+Proof. exact adv_time_spec. Qed.
+Print Assumptions transport_cell_loop_times.
 
 (* ---- time bookkeeping ---------------------------------------------------------------------------- *)
 Theorem current_step_matches_spec : forall steps cnt eq inc n,
